@@ -240,6 +240,10 @@ func c04E2E(res *lib.Result, tier string, root *lib.Rng) error {
 		default:
 			src = genC19File(r, "q") + genC19File(r.Fork(7), "r")
 		}
+		if wi%3 == 1 {
+			// a first line that starts with '#' (skipped by the loader, but a line of the document all the same)
+			src = "#!/usr/bin/env lua\n" + src
+		}
 		// globals defined in a second, longer file and used here: a location of that file must never be
 		// reported as a position of this one
 		src += "gshared_add(1)\nprint(gshared_counter)\n"
